@@ -67,15 +67,18 @@ claim('C10', 'kani',
       'Not decided: presence/shape of stack maps in emitted code, slot ranges, `.s` metadata, arm64, optimizing generator.',
       'DESIGN.md §4 C10')
 
-claim('C09', 'verus',
-      'contract-based deductive verification (Verus) of the real ObjectHashMap (the address-keyed wait table), extracted mechanically on every run',
+claim('C09', 'verus+kani',
+      'contract-based deductive verification: Verus contracts on the real ObjectHashMap (the address-keyed wait table), extracted mechanically on every run; Kani/CBMC full-domain proofs of the instruction selection of the baseline generator\'s atomic operations',
       'Clause decided: the wait lists keep their entries "also when collections move the mutex and condition objects while threads are queued on them" - the sequential core: '
       'ObjectHashMap::{new, with_capacity, get, insert, remove, rehash, maybe_rehash_*} carry Verus contracts against an abstract map (domain + value predicates) around a representation invariant '
       '(power-of-two capacity, exact live/tombstone counts, load factor incl. tombstones, unique keys, no EMPTY slot on any probe path unless the GC epoch changed). Proved for all tables, keys and operation histories: '
       'every operation implements map semantics on ALL keys, every probe loop terminates, and a table whose keys were rewritten by a moving collection is rehashed before it is probed. '
-      'The proof attempt exposed a genuine hang (tombstone exhaustion), repaired in /repo by a fix: commit; the unit verifies on the repaired tree.',
+      'The proof attempt exposed a genuine hang (tombstone exhaustion), repaired in /repo by a fix: commit; the unit verifies on the repaired tree. '
+      'Clause "atomic read-modify-write operations are indivisible", instruction-selection half: for the x86-64 macro assembler of the baseline generator, store/exchange/compare-exchange/fetch-add (_synchronized) are proved, for all register choices, '
+      'to emit exactly ONE memory-accessing instruction of the architecturally indivisible kind (xchg with memory operand, lock cmpxchg, lock xadd) of the requested width on the requested address, followed only by register moves (9 Kani rows; quick tier runs 5).',
       'Trusted: Verus/Z3, vstd, rewrites N1-N8, assumed std contracts in evidence.trusted_base, assumptions about the collector (keys stay distinct, epoch bump, no GC under the lock). '
-      'NOT decided: mutual exclusion, lost wake-ups, join, thread queue links, atomics in generated code - interleaving properties are outside this technique.',
+      'that a locked instruction is indivisible is the processor\'s guarantee. '
+      'NOT decided: mutual exclusion, lost wake-ups, join, thread queue links, atomics of the optimizing generator and of arm64 - interleaving properties are outside this technique.',
       'DESIGN.md §4 C09')
 
 claim('C07', 'kani+verus',
